@@ -58,7 +58,7 @@ def settle (w : World) (adv : Bool) : World :=
      | .write pkt bytes wr len => (pendW w).suspend (.stepWrite (.drive adv .poll) pkt bytes wr len w.now)
      | .flush pkt => (pendF w).suspend (.stepFlush (.drive adv .poll) pkt w.now)
      | .done => w
-     | .fail e => w.finishErr "poll" e)
+     | .fail e => (w.failStep (.drive adv .poll) st).finishErr "poll" e)
   | none =>
     if adv then w.finish "ret poll ok none"
     else (pendR w).suspend (.waitRead .poll w.sess.rt.nextDeadline true)
@@ -169,7 +169,7 @@ theorem with_slot_none (x : World) (h : x.slot = none) : ({ x with slot := none 
 theorem settle_slot (w : World) (adv : Bool) : (settle w adv).slot = w.slot := by
   unfold settle
   repeat' split
-  all_goals rfl
+  all_goals first | rfl | exact failStep_slot _ _ _
 
 /-- The world in which the drive loop goes on after a completed flush (trace `o`). -/
 def flushedW (W : World) (pkt : Flushed) (now : Nat) (o : List String) : World :=
